@@ -839,7 +839,7 @@ func wrapHelperRule(P *Program, r *Result, rel string) {
 						for _, ref := range *obj.Referrers() {
 							if fa, ok := ref.(*ssa.FieldAddr); ok {
 								st := deref(fa.X.Type()).Underlying().(*types.Struct)
-								if st.Field(fa.Field).Name() == "err" {
+								if st != nil && canonFieldName(fa.X.Type(), fa.Field) == "err" {
 									for _, r2 := range *fa.Referrers() {
 										if s, ok := r2.(*ssa.Store); ok && s.Val == errp && instrDominates(s, ret) {
 											wrapOK = true
